@@ -84,3 +84,194 @@ Proof.
   unfold hist_ok. intros H k res inv ret Hin. rewrite forallb_forall in H.
   specialize (H _ Hin). simpl in H. apply valid_read_iff. exact H.
 Qed.
+
+(* ------------------------------------------------------------------------------------ *)
+(* the sequential model meets the history oracle: for every initial contents and every sequence
+   of operations, the history the model produces (operation j occupies the tickets 2j+1, 2j+2,
+   results and final contents as computed by seq_run) passes hist_ok and final_ok *)
+Section SeqMeetsOracle.
+  Variable init : rmap.
+
+  Definition chk (ws : list hwrite) (e : hev) : bool :=
+    match e with
+    | (RReg _ _, _, _) => true
+    | (RGet k res, i, r) => valid_read init ws k res i r
+    | (RClone snap, i, r) => valid_snapshot init ws snap i r
+    end.
+
+  Lemma hist_ok_chk evs : hist_ok init evs = forallb (chk (writes_of evs)) evs.
+  Proof. reflexivity. Qed.
+
+  Definition outs (d : rmap) (ops : list rop) : list rop := fst (seq_run d ops).
+  Definition fin (d : rmap) (ops : list rop) : rmap := snd (seq_run d ops).
+
+  Lemma outs_reg d k v r : outs d (RReg k v :: r) = RReg k v :: outs (set k v d) r.
+  Proof. unfold outs. simpl. destruct (seq_run (set k v d) r). reflexivity. Qed.
+  Lemma outs_get d k x r : outs d (RGet k x :: r) = RGet k (lookup k d) :: outs d r.
+  Proof. unfold outs. simpl. destruct (seq_run d r). reflexivity. Qed.
+  Lemma outs_clone d x r : outs d (RClone x :: r) = RClone d :: outs d r.
+  Proof. unfold outs. simpl. destruct (seq_run d r). reflexivity. Qed.
+  Lemma fin_reg d k v r : fin d (RReg k v :: r) = fin (set k v d) r.
+  Proof. unfold fin. simpl. destruct (seq_run (set k v d) r). reflexivity. Qed.
+  Lemma fin_get d k x r : fin d (RGet k x :: r) = fin d r.
+  Proof. unfold fin. simpl. destruct (seq_run d r). reflexivity. Qed.
+  Lemma fin_clone d x r : fin d (RClone x :: r) = fin d r.
+  Proof. unfold fin. simpl. destruct (seq_run d r). reflexivity. Qed.
+
+  (* the writes of a sequential history starting at operation number n *)
+  Lemma suffix_bounds ops : forall n, 0 <= n ->
+    forall k v i r, In (k, v, i, r) (writes_of (seq_hist n ops)) -> 2 * n < i /\ r = i + 1.
+  Proof.
+    induction ops as [|o rest IH]; intros n Hn k v i r Hin; [destruct Hin|].
+    destruct o as [k0 v0|k0 x|x]; cbn [seq_hist writes_of flat_map app] in Hin.
+    - destruct Hin as [Hin|Hin].
+      + assert (Ei : 2 * n + 1 = i /\ 2 * n + 2 = r) by (split; congruence). lia.
+      + destruct (IH (n + 1) ltac:(lia) k v i r Hin). lia.
+    - destruct (IH (n + 1) ltac:(lia) k v i r Hin). lia.
+    - destruct (IH (n + 1) ltac:(lia) k v i r Hin). lia.
+  Qed.
+
+  (* d is what the registrations P (all returned by time 2n) made of the initial contents *)
+  Definition SInv (d : rmap) (n : Z) (P : list hwrite) : Prop :=
+    (forall k v i r, In (k, v, i, r) P -> 0 < i /\ i < r /\ r <= 2 * n) /\
+    forall k,
+      match lookup k d with
+      | Some v =>
+          (lookup k init = Some v /\ forall v' i r, ~ In (k, v', i, r) P) \/
+          (exists i r, In (k, v, i, r) P /\ forall v' i' r', In (k, v', i', r') P -> ~ r < i')
+      | None => lookup k init = None /\ forall v' i r, ~ In (k, v', i, r) P
+      end.
+
+  Lemma sinv_valid d n P S k inv ret :
+    SInv d n P ->
+    (forall k v i r, In (k, v, i, r) S -> ~ r < inv) ->
+    (forall k v i r, In (k, v, i, r) P -> i < ret) ->
+    ValidRead init (P ++ S) k (lookup k d) inv ret.
+  Proof.
+    intros [Hb Hst] HS HP. specialize (Hst k). unfold ValidRead.
+    destruct (lookup k d) as [v|].
+    - destruct Hst as [[Hi Hno]|[i [r [Hin Hlast]]]].
+      + left. split; [exact Hi|]. intros [v' [i' [r' [Hin' [H1 H2]]]]].
+        apply in_app_or in Hin'. destruct Hin' as [Hin'|Hin']; [exact (Hno _ _ _ Hin')|exact (HS _ _ _ _ Hin' H1)].
+      + right. exists i, r. split; [apply in_or_app; left; exact Hin|]. split; [exact (HP _ _ _ _ Hin)|].
+        intros [v' [i' [r' [Hin' [H1 H2]]]]].
+        apply in_app_or in Hin'. destruct Hin' as [Hin'|Hin']; [exact (Hlast _ _ _ Hin' H2)|exact (HS _ _ _ _ Hin' H1)].
+    - destruct Hst as [Hi Hno]. split; [exact Hi|]. intros v i r Hin.
+      apply in_app_or in Hin. destruct Hin as [Hin|Hin]; [exfalso; exact (Hno _ _ _ Hin)|exact (HS _ _ _ _ Hin)].
+  Qed.
+
+  Lemma sinv_next d n P : 0 <= n -> SInv d n P -> SInv d (n + 1) P.
+  Proof.
+    intros Hn [Hb Hst]. split; [|exact Hst]. intros k v i r Hin. destruct (Hb _ _ _ _ Hin) as [A [B C]]. lia.
+  Qed.
+
+  Lemma sinv_reg d n P k v : 0 <= n -> SInv d n P ->
+    SInv (set k v d) (n + 1) (P ++ [(k, v, 2 * n + 1, 2 * n + 2)]).
+  Proof.
+    intros Hn [Hb Hst]. split.
+    - intros k0 v0 i r Hin. apply in_app_or in Hin. destruct Hin as [Hin|[Hin|[]]].
+      + destruct (Hb _ _ _ _ Hin) as [A [B C]]. lia.
+      + assert (Ei : 2 * n + 1 = i /\ 2 * n + 2 = r) by (split; congruence). lia.
+    - intros k0. rewrite lookup_set. destruct (str_eqb k0 k) eqn:E.
+      + apply str_eqb_eq in E. subst k0. right. exists (2 * n + 1), (2 * n + 2).
+        split; [apply in_or_app; right; left; reflexivity|].
+        intros v' i' r' Hin. apply in_app_or in Hin. destruct Hin as [Hin|[Hin|[]]].
+        * destruct (Hb _ _ _ _ Hin) as [A [B C]]. lia.
+        * assert (Ei : 2 * n + 1 = i') by congruence. lia.
+      + apply str_eqb_neq in E.
+        assert (Hmem : forall v' i r, In (k0, v', i, r) (P ++ [(k, v, 2 * n + 1, 2 * n + 2)]) -> In (k0, v', i, r) P).
+        { intros v' i r Hin. apply in_app_or in Hin. destruct Hin as [Hin|[Hin|[]]]; [exact Hin|].
+          assert (k = k0) by congruence. congruence. }
+        specialize (Hst k0). destruct (lookup k0 d) as [v0|].
+        * destruct Hst as [[Hi Hno]|[i [r [Hin Hlast]]]].
+          -- left. split; [exact Hi|]. intros v' i r Hin. exact (Hno _ _ _ (Hmem _ _ _ Hin)).
+          -- right. exists i, r. split; [apply in_or_app; left; exact Hin|].
+             intros v' i' r' Hin'. exact (Hlast _ _ _ (Hmem _ _ _ Hin')).
+        * destruct Hst as [Hi Hno]. split; [exact Hi|]. intros v' i r Hin. exact (Hno _ _ _ (Hmem _ _ _ Hin)).
+  Qed.
+
+  Lemma sinv_snapshot d n P S inv ret :
+    SInv d n P ->
+    (forall k v i r, In (k, v, i, r) S -> ~ r < inv) ->
+    (forall k v i r, In (k, v, i, r) P -> i < ret) ->
+    valid_snapshot init (P ++ S) d inv ret = true.
+  Proof.
+    intros HI HS HP. unfold valid_snapshot. apply forallb_forall. intros k _.
+    apply valid_read_iff. eapply sinv_valid; eauto.
+  Qed.
+
+  Lemma fb_cons {A} (f : A -> bool) a l : forallb f (a :: l) = f a && forallb f l.
+  Proof. reflexivity. Qed.
+
+  Lemma seq_main ops : forall n d P, 0 <= n -> SInv d n P ->
+    let H := seq_hist n (outs d ops) in
+    forallb (chk (P ++ writes_of H)) H = true /\
+    exists n', n <= n' /\ SInv (fin d ops) n' (P ++ writes_of H).
+  Proof.
+    induction ops as [|o rest IH]; intros n d P Hn HI; cbv zeta.
+    - simpl. split; [reflexivity|]. exists n. split; [lia|]. rewrite app_nil_r. exact HI.
+    - assert (Hsuf : forall evs, forall k v i r, In (k, v, i, r) (writes_of (seq_hist (n + 1) evs)) -> ~ r < 2 * n + 1).
+      { intros evs k v i r Hin. destruct (suffix_bounds evs (n + 1) ltac:(lia) k v i r Hin). lia. }
+      assert (HP : forall k v i r, In (k, v, i, r) P -> i < 2 * n + 2).
+      { intros k v i r Hin. destruct (proj1 HI _ _ _ _ Hin) as [A [B C]]. lia. }
+      destruct o as [k v|k x|x].
+      + rewrite outs_reg, fin_reg. cbn [seq_hist].
+        change (writes_of ((RReg k v, 2 * n + 1, 2 * n + 2) :: seq_hist (n + 1) (outs (set k v d) rest)))
+          with ((k, v, 2 * n + 1, 2 * n + 2) :: writes_of (seq_hist (n + 1) (outs (set k v d) rest))).
+        replace (P ++ (k, v, 2 * n + 1, 2 * n + 2) :: writes_of (seq_hist (n + 1) (outs (set k v d) rest)))
+          with ((P ++ [(k, v, 2 * n + 1, 2 * n + 2)]) ++ writes_of (seq_hist (n + 1) (outs (set k v d) rest)))
+          by (rewrite <- app_assoc; reflexivity).
+        destruct (IH (n + 1) (set k v d) (P ++ [(k, v, 2 * n + 1, 2 * n + 2)]) ltac:(lia) (sinv_reg d n P k v Hn HI)) as [H1 [n' [Hn' H2]]].
+        cbv zeta in H1, H2. split.
+        * rewrite fb_cons. cbn [chk andb]. exact H1.
+        * exists n'. split; [lia|exact H2].
+      + rewrite outs_get, fin_get. cbn [seq_hist].
+        change (writes_of ((RGet k (lookup k d), 2 * n + 1, 2 * n + 2) :: seq_hist (n + 1) (outs d rest)))
+          with (writes_of (seq_hist (n + 1) (outs d rest))).
+        destruct (IH (n + 1) d P ltac:(lia) (sinv_next d n P Hn HI)) as [H1 [n' [Hn' H2]]].
+        cbv zeta in H1, H2. split.
+        * rewrite fb_cons. cbn [chk]. rewrite H1, andb_true_r. apply valid_read_iff.
+          eapply sinv_valid; [exact HI|apply Hsuf|exact HP].
+        * exists n'. split; [lia|exact H2].
+      + rewrite outs_clone, fin_clone. cbn [seq_hist].
+        change (writes_of ((RClone d, 2 * n + 1, 2 * n + 2) :: seq_hist (n + 1) (outs d rest)))
+          with (writes_of (seq_hist (n + 1) (outs d rest))).
+        destruct (IH (n + 1) d P ltac:(lia) (sinv_next d n P Hn HI)) as [H1 [n' [Hn' H2]]].
+        cbv zeta in H1, H2. split.
+        * rewrite fb_cons. cbn [chk]. rewrite H1, andb_true_r.
+          eapply sinv_snapshot; [exact HI|apply Hsuf|exact HP].
+        * exists n'. split; [lia|exact H2].
+  Qed.
+
+  Lemma end_time_gt evs : forall k v i r, In (k, v, i, r) (writes_of evs) -> r < end_time evs.
+  Proof.
+    unfold end_time. induction evs as [|e rest IH]; intros k v i r Hin; [destruct Hin|].
+    destruct e as [[o i0] r0]. cbn [fold_right snd].
+    destruct o as [k0 v0|k0 x|x]; cbn [writes_of flat_map app] in Hin.
+    - destruct Hin as [Hin|Hin].
+      + assert (r0 = r) by congruence. subst. lia.
+      + specialize (IH _ _ _ _ Hin). lia.
+    - specialize (IH _ _ _ _ Hin). lia.
+    - specialize (IH _ _ _ _ Hin). lia.
+  Qed.
+
+  Lemma sinv_init : SInv init 0 [].
+  Proof.
+    split; [intros k v i r []|]. intros k. destruct (lookup k init) as [v|].
+    - left. split; [reflexivity|]. intros v' i r [].
+    - split; [reflexivity|]. intros v' i r [].
+  Qed.
+
+  Lemma seq_model_meets_history_oracle ops :
+    hist_ok init (seq_hist 0 (fst (seq_run init ops))) = true /\
+    final_ok init (seq_hist 0 (fst (seq_run init ops))) (snd (seq_run init ops)) = true.
+  Proof.
+    destruct (seq_main ops 0 init [] ltac:(lia) sinv_init) as [H1 [n' [Hn' H2]]]. cbv zeta in H1, H2.
+    simpl app in H1, H2. fold (outs init ops) (fin init ops). split.
+    - rewrite hist_ok_chk. exact H1.
+    - unfold final_ok.
+      replace (writes_of (seq_hist 0 (outs init ops))) with (writes_of (seq_hist 0 (outs init ops)) ++ []) by apply app_nil_r.
+      eapply sinv_snapshot; [exact H2|intros k v i r []|].
+      intros k v i r Hin. pose proof (end_time_gt _ _ _ _ _ Hin). destruct (proj1 H2 _ _ _ _ Hin) as [A [B C]]. lia.
+  Qed.
+End SeqMeetsOracle.
